@@ -23,8 +23,9 @@
 //     translator checks that every limb occurs exactly once and rejects any other limb access
 //     and: z.Select(c, x0, x1) = if c = 0 then x0 else x1;  z.Exp(x, k) = x ^ k for a big.Int k known at translation time;
 //     fp.BatchInvert(a) = element-wise inverse with 0⁻¹ = 0; z.Mul2ExpNegN(x, n) = x · (2^n)⁻¹.
-//   - `h.params.Width` is the specialised width, `h.params.RoundKeys[round]` a parameter `roundKey` of that many elements
-//     (initRC allocates every row with make([]fr.Element, p.Width)); `len(input) = Width` as Permutation() checks on entry.
+//   - `h.params.Width` is the specialised width, `h.params.RoundKeys[round]` a parameter `roundKey`; in the stand-alone translation of
+//     a layer it has Width elements (the rows of the full rounds); under `Permutation` (slpperm.go) its length is the length initRC
+//     gives to that row (1 in the partial rounds, def suffix _k1); `len(input) = Width` as Permutation() checks on entry.
 package main
 
 import (
